@@ -306,6 +306,7 @@ fn buffer_removals(
 fn send_replication(
     mut serialized: Local<SerializedData>,
     change_tick: SystemChangeTick,
+    entities: &Entities,
     world: ServerWorld,
     mut clients: Query<(
         Entity,
@@ -336,7 +337,7 @@ fn send_replication(
     }
 
     collect_mappings(&mut serialized, &mut clients)?;
-    collect_despawns(&mut serialized, &mut clients, &mut despawn_buffer)?;
+    collect_despawns(&mut serialized, &mut clients, &mut despawn_buffer, entities)?;
     collect_removals(&mut serialized, &mut clients, &removal_buffer)?;
     collect_changes(
         &mut serialized,
@@ -477,13 +478,17 @@ fn collect_despawns(
         Option<&mut ClientVisibility>,
     )>,
     despawn_buffer: &mut DespawnBuffer,
+    entities: &Entities,
 ) -> Result<()> {
     for entity in despawn_buffer.drain(..) {
+        // Removal of the marker is also buffered as a despawn, but the entity may start
+        // replicating again later, so its visibility settings should be preserved.
+        let despawned = !entities.contains(entity);
         let entity_range = serialized.write_entity(entity)?;
         for (client_entity, mut message, .., mut ticks, visibility) in &mut *clients {
             if let Some(mut visibility) = visibility {
                 let visible = visibility.is_visible(entity);
-                let lost = visibility.remove_despawned(entity);
+                let lost = despawned && visibility.remove_despawned(entity);
                 if visible || lost {
                     trace!("writing despawn for `{entity}` for client `{client_entity}`");
                     message.add_despawn(entity_range.clone());
